@@ -77,6 +77,15 @@ class PE(BinFormat):
         return self.NT
 
     def __init__(self, data):
+        # malformed content is reported through the format's own error type:
+        try:
+            self._read(data)
+        except (PEError, StructureError):
+            raise
+        except Exception as e:
+            raise PEError("%s: %s" % (type(e).__name__, e))
+
+    def _read(self, data):
         self.data = data
         # parse DOS header:
         try:
